@@ -341,6 +341,17 @@ pub fn base_model(variant: usize) -> Model {
     let c = Ex::Or(Box::new(Ex::AutNum("AS65001".into())), Box::new(Ex::AutNum("AS65002".into())));
     _ = m.db.filter_sets.insert("FLTR-C".into(), vec!["AS65001 # ours\n                OR AS65002 # a customer\n+               # nothing else".into()]);
     _ = m.filter_exprs.insert("FLTR-C".into(), c);
+    // filter-set objects the IRR knows but that carry no usable filter: no attribute at all / one that does not parse
+    _ = m.db.filter_sets.insert("FLTR-NOFILTER".into(), vec!["@nofilter".into()]);
+    _ = m.db.filter_sets.insert("FLTR-BADFILTER".into(), vec!["AS65001 AND AND }".into()]);
+    // registry data with non-ASCII text: two objects whose run of two-byte characters starts at an even and at an
+    // odd byte offset, so that every byte position of the first few hundred bytes falls inside a character of one
+    let accents = "\u{e9}".repeat(150);
+    let u = Ex::AutNum("AS65001".into());
+    _ = m.db.filter_sets.insert("FLTR-U1".into(), vec![format!("@descr {accents}|{}", u.render())]);
+    _ = m.db.filter_sets.insert("FLTR-U2".into(), vec![format!("@descr x{accents}|{}", u.render())]);
+    _ = m.filter_exprs.insert("FLTR-U1".into(), u.clone());
+    _ = m.filter_exprs.insert("FLTR-U2".into(), u);
     // registry data that can never be evaluated (never used as an atom: there is nothing to compare with)
     _ = m.db.filter_sets.insert("FLTR-LOOP".into(), vec!["FLTR-LOOP".into()]);
     m
@@ -362,6 +373,8 @@ pub fn atoms() -> Vec<Ex> {
         Ex::FilterSet("FLTR-G".into()),
         Ex::FilterSet("FLTR-H".into()),
         Ex::FilterSet("FLTR-C".into()),
+        Ex::FilterSet("FLTR-U1".into()),
+        Ex::FilterSet("FLTR-U2".into()),
         lit4.clone(),
         lit6,
         lit_mixed,
@@ -868,7 +881,7 @@ pub fn run_c17(report: &mut Report, budget: Duration) {
     // given prefix, so they mean the same thing at every position and on the fresh reference connection.
     // (Catches state that builds up over several evaluations - budgets, caches, counters - and state
     // that is only reset on the success path.)
-    let failing: Vec<String> = ["(FLTR-F AND AS-GONE)", "(AS-GONE AND FLTR-F)", "(RS-X AND AS-GONE)", "((AS-A AND AS-B) AND AS-GONE)", "(AS65001 AND AS-GONE)", "(FLTR-F AND (FLTR-F AND AS-GONE))", "FLTR-LOOP", "(AS-A OR FLTR-LOOP)", "(AS65001^33-40 OR AS-GONE)", "(PeerAS OR AS-A)"].iter().map(|s| (*s).to_string()).collect();
+    let failing: Vec<String> = ["(FLTR-F AND AS-GONE)", "(AS-GONE AND FLTR-F)", "(RS-X AND AS-GONE)", "((AS-A AND AS-B) AND AS-GONE)", "(AS65001 AND AS-GONE)", "(FLTR-F AND (FLTR-F AND AS-GONE))", "FLTR-LOOP", "(AS-A OR FLTR-LOOP)", "(AS65001^33-40 OR AS-GONE)", "(PeerAS OR AS-A)", "FLTR-NOFILTER", "(AS-A AND FLTR-BADFILTER)"].iter().map(|s| (*s).to_string()).collect();
     let xs: Vec<String> = alpha.iter().cloned().chain(failing).collect();
     let ks: Vec<usize> = if thorough { vec![1, 2, 3, 5, 9, 17, 33] } else { vec![2, 9] };
     let rep_irrd = Irrd::start(model.db.clone());
@@ -1026,6 +1039,9 @@ pub fn unobtainable_cases(report: &mut Report, id: &str) -> u64 {
         ("PeerAS in a union", "(AS65004 OR PeerAS)", Plan::default()),
         ("AS-path regular expression", "<^AS65000+$>", Plan::default()),
         ("filter-set referring to itself", "FLTR-LOOP", Plan::default()),
+        ("filter-set object without a filter attribute", "FLTR-NOFILTER", Plan::default()),
+        ("filter-set object without a filter attribute in a union", "(FLTR-NOFILTER OR AS65002)", Plan::default()),
+        ("filter-set whose filter does not parse", "FLTR-BADFILTER", Plan::default()),
     ];
     for (what, expr, plan) in more {
         n += 1;
